@@ -192,7 +192,7 @@ class Run:
             if kind == "rapid":
                 for m in re.finditer(r"\[rapid\] OK, passed (\d+) tests", text):
                     passed += int(m.group(1))
-            if os.environ.get("VERIF_COLLECT") == "1":
+            if (os.environ.get("VERIF_COLLECT") == "1" or os.environ.get("VERIF_ONLY_STAGE")):
                 for m in re.finditer(r"COLLECT-BEGIN (\S+)\n(.*?)\nCOLLECT-END", text, re.S):
                     if m.group(1) not in self.collected:
                         self.collected[m.group(1)] = m.group(2)
@@ -213,6 +213,9 @@ class Run:
                 # e.g. data-race reports of the -race perturbation stage: logged, never a verdict
                 races = len(re.findall(r"WARNING: DATA RACE", text))
                 self.notes.append("stage %s shard %d: exit %s without a property violation (%d data race reports, logged only)" % (stage["name"], pr["i"], rc, races))
+            elif re.search(r"^panic: (?!test timed out)", text, re.M) or re.search(r"^fatal error: ", text, re.M):
+                # the test process itself died (a panic on an engine goroutine, a fatal runtime error)
+                self.save_violation(stage, pr, text, "%s/process-crash" % self.pid)
             elif re.search(r"^(--- FAIL|FAIL|panic:)", text, re.M):
                 # a failing test without our signature: still a failure of the check on this tree
                 self.save_violation(stage, pr, text, "unclassified-failure")
@@ -320,7 +323,7 @@ class Run:
         if self.notes:
             ev["coverage"]["notes"] = self.notes
         evdir = os.path.join(VERIF, "evidence")
-        if os.path.realpath(self.repo) != "/repo" or os.environ.get("VERIF_COLLECT") == "1":
+        if os.path.realpath(self.repo) != "/repo" or (os.environ.get("VERIF_COLLECT") == "1" or os.environ.get("VERIF_ONLY_STAGE")):
             # runs against a scratch copy (mutant trials) or triage runs never touch the registered evidence
             evdir = os.path.join(VERIF, ".build", "evidence-scratch")
         os.makedirs(evdir, exist_ok=True)
@@ -360,6 +363,9 @@ class Run:
             stages.append(dict(name="known@" + pkg, kind="plain", run="^TestKnown_%s" % self.pid, timeout=300, pkg=pkg))
             stages.append(dict(name="replay@" + pkg, kind="plain", run="^TestReplay_%s" % self.pid, timeout=300, pkg=pkg))
         stages += self.spec["stages"]
+        only = os.environ.get("VERIF_ONLY_STAGE")  # development aid: run one registered stage (evidence goes to the scratch directory)
+        if only:
+            stages = [st for st in stages if st["name"] == only]
         for st in stages:
             self.run_stage(st)
             if self.violations:
